@@ -99,13 +99,31 @@ type manualCtx struct {
 	once sync.Once
 	err  error
 	fin  atomic.Bool
+	// the caller's own deadline
+	deadline time.Time
+	stop     func() bool
 }
 
-func newManualCtx(err error) *manualCtx { return &manualCtx{done: make(chan struct{}), err: err} }
+// callerDeadline: every real caller of the worker token has a deadline of its own (server.handleFunc: WriteTimeout,
+// pingOne: TokenCheckTimeout), far beyond the token's per-attempt timeout; the harness's caller context has one too and
+// ends with DeadlineExceeded when it passes (a scripted cancellation comes first when there is one).
+const callerDeadline = 20 * time.Second
+
+func newManualCtx(err error) *manualCtx {
+	c := &manualCtx{done: make(chan struct{}), err: err, deadline: time.Now().Add(callerDeadline)}
+	t := time.AfterFunc(callerDeadline, func() {
+		c.once.Do(func() { c.err = context.DeadlineExceeded; c.fin.Store(true); close(c.done) })
+	})
+	c.stop = t.Stop
+	return c
+}
 func (c *manualCtx) finish() {
 	c.once.Do(func() { c.fin.Store(true); close(c.done) })
+	if c.stop != nil {
+		c.stop()
+	}
 }
-func (c *manualCtx) Deadline() (time.Time, bool) { return time.Time{}, false }
+func (c *manualCtx) Deadline() (time.Time, bool) { return c.deadline, true }
 func (c *manualCtx) Done() <-chan struct{}       { return c.done }
 func (c *manualCtx) Err() error {
 	if c.fin.Load() {
